@@ -150,12 +150,12 @@ func (i *inspect) addIndexes(t *schema.Table, rows *sql.Rows) error {
 			},
 		}
 		if partial {
-			i := strings.Index(stmt.String, "WHERE")
-			if i == -1 {
+			m := reIdxWhere.FindStringSubmatch(stmt.String)
+			if m == nil {
 				return fmt.Errorf("missing partial WHERE clause in: %s", stmt.String)
 			}
 			idx.Attrs = append(idx.Attrs, &IndexPredicate{
-				P: strings.TrimSpace(stmt.String[i+5:]),
+				P: strings.TrimSpace(m[1]),
 			})
 		}
 		t.Indexes = append(t.Indexes, idx)
@@ -167,6 +167,10 @@ var (
 	// A regexp to extract index parts.
 	reIdxParts = regexp.MustCompile("(?i)ON\\s+[\"`]*(?:\\w+)[\"`]*\\s*\\((.+?)\\)(\\s*WHERE\\s+.+)?$")
 	reIdxDesc  = regexp.MustCompile("(?i)\\s+DESC\\s*$")
+	// A regexp to extract the predicate of a partial index: the WHERE keyword (in any
+	// case) follows the closing parenthesis of the index parts. Searching for "WHERE"
+	// alone also matches identifiers that contain it, and misses a lower-case keyword.
+	reIdxWhere = regexp.MustCompile("(?is)\\)\\s*WHERE\\b(.+)$")
 )
 
 func (i *inspect) indexInfo(ctx context.Context, t *schema.Table, idx *schema.Index) error {
